@@ -12,6 +12,8 @@ func init() {
 		Stages: []Stage{
 			{Name: "lib", Pkg: "./pkg/station/lib", Run: "^TestVerifC11Lib$", Drivers: []string{"lib"}, Exports: []string{"lib", "cdtls", "dnat"}, Netns: true, TimeoutQ: 10 * time.Minute, TimeoutT: 40 * time.Minute},
 			{Name: "regproc", Pkg: "./pkg/regserver/regprocessor", Run: "^TestVerifC11Regproc$", Drivers: []string{"regproc"}, Exports: []string{"lib"}, TimeoutQ: 10 * time.Minute, TimeoutT: 40 * time.Minute},
+			{Name: "apireg", Pkg: "./pkg/regserver/apiregserver", Run: "^TestVerifC11API$", Drivers: []string{"apireg"}, Exports: []string{"regproc"}, TimeoutQ: 10 * time.Minute, TimeoutT: 40 * time.Minute},
+			{Name: "dnsreg", Pkg: "./pkg/regserver/dnsregserver", Run: "^TestVerifC11DNS$", Drivers: []string{"dnsreg"}, Exports: []string{"regproc", "responder"}, TimeoutQ: 10 * time.Minute, TimeoutT: 40 * time.Minute},
 		},
 	})
 }
